@@ -47,11 +47,13 @@ def run(ctx):
     _python_values(ctx, entries)
     J.verbatim_payload(ctx, 'C05.D1', entries, fn)
     J.time_fields_exact(ctx, 'C05.D1', entries, fn)
+    J.number_branch(ctx, 'C05.D1', entries, fn)
     _structure(ctx)
     _freshness(ctx)
     # date-times with a zone name denote the written instant (clause shared with C17.D2)
     from . import c17
     c17._api(ctx, ctx.model, rule='C05.D4', only=('jsonparser',))
+    c17.zone_applied(ctx, ctx.model, 'C05.D4', 'jsonparser', 'parse_embedded_scalar', 'json')
 
 
 def _spellings(ctx, entries):
